@@ -121,6 +121,9 @@ func (r *Run) checkHTTP(s *Step, o *StepObs, pre Effects) {
 		if pol.EffTLS() == "yes" && o.Status != 403 {
 			r.viol("PlainHttpRefused:"+s.C.C, "%s: TLS is required but the plaintext port answered %d", where, o.Status)
 		}
+		if pol.EffTLS() == "http" && o.Status == 403 {
+			r.viol("PlainHttpRefused:tcp-https:"+s.C.C, "%s: tcp-https mode serves plaintext HTTP, but the plaintext port answered 403", where)
+		}
 		if o.Status == 403 && !o.Eff.Equal(pre) {
 			r.viol("PlainHttpRefused:effect", "%s: refused with 403 but the registry changed %v -> %v", where, pre, o.Eff)
 		}
